@@ -20,47 +20,47 @@ def T(*names):
 
 PROPS = {
  'C12': dict(
-    tasks=T('mirvc:specs_tower', 'search:specs_tower', 'mirvc:specs_lib', 'lsearch:all'),
+    tasks=T('mirvc:specs_tower', 'search:specs_tower', 'mirvc:specs_lib', 'lsearch:all', 'ground:all'),
     trusted_base=[A['A2'], A['A7'], A['A9'], A['L2']],
     assumptions=[A['A2'], A['A6'], A['A7'], A['A9']],
     explanation='every function of fields/fq2.rs verified against Fq[u]/(u^2+2) from its rustc MIR with callees replaced by contracts'),
  'C17': dict(
-    tasks=T('mirvc:specs_tower', 'search:specs_tower', 'mirvc:specs_fexp', 'search:specs_fexp', 'mirvc:specs_lib'),
+    tasks=T('mirvc:specs_tower', 'search:specs_tower', 'mirvc:specs_fexp', 'search:specs_fexp', 'mirvc:specs_lib', 'ground:all'),
     trusted_base=[A['A2'], A['A7'], A['A9'], A['L2']],
     assumptions=[A['A2'], A['A6'], A['A7'], A['A9']],
     explanation='every function of fq4.rs / fq12.rs verified against F_q[w]/(w^12+2) on arbitrary elements; Frobenius maps against x^(q^k) with constants recomputed exactly; both final exponentiations by exponent contracts: result = x^e with e = (q^12-1)/r mod q^12-1'),
  'C11': dict(
-    tasks=T('mirvc:specs_tower', 'search:specs_tower', 'mirvc:specs_lib', 'lsearch:all'),
+    tasks=T('mirvc:specs_tower', 'search:specs_tower', 'mirvc:specs_lib', 'mirvc:specs_loops', 'mirvc:specs_fexp', 'pairsearch:all', 'ground:all'),
     trusted_base=[A['A2'], A['A7'], A['A9'], A['L2']],
     assumptions=[A['A2'], A['A6'], A['A7'], A['A9']],
-    explanation='Gt operations are Fq12 operations'),
+    explanation='Gt::mul / inverse / one are the Fq12 operations (delegation + tower obligations); Gt::pow is the generic square-and-multiply loop with invariant res = g^prefix; == and to_slice are coordinate-wise; reduction of exponents mod r uses g^r = 1 (final exponent contract + A2)'),
  'C04': dict(
-    tasks=T('mirvc:specs_groups', 'mirvc:specs_lib', 'gsearch:all'),
+    tasks=T('mirvc:specs_groups', 'mirvc:specs_lib', 'gsearch:all', 'ground:all'),
     trusted_base=[A['A2'], A['A3'], A['A4'], A['A7'], A['A9'], 'hand-over: Base-field ring contracts (C06/C12)'],
     assumptions=[A['A3'], A['A4'], A['A6'], A['A7']],
     explanation='double, every branch of Add (4 representation combinations x generic/equal/opposite/identity), Neg, Sub, AddAssign verified generically over P::Base from rustc MIR against the affine chord-and-tangent law; valid_rep(out) proved as ideal membership modulo the curve equations'),
  'C15': dict(
-    tasks=T('mirvc:specs_groups', 'mirvc:specs_lib', 'gsearch:all'),
+    tasks=T('mirvc:specs_groups', 'mirvc:specs_lib', 'gsearch:all', 'ground:all'),
     trusted_base=[A['A2'], A['A4'], A['A7'], A['A9']],
     assumptions=[A['A4'], A['A6'], A['A7']],
     explanation='==, is_zero, to_affine, to_jacobian, zero verified over the affine view for identity / z=1 / general representatives and all relations'),
  'C09': dict(
-    tasks=T('mirvc:specs_groups', 'mirvc:specs_lib', 'gsearch:all', 'csearch:debug'),
+    tasks=T('mirvc:specs_groups', 'mirvc:specs_lib', 'gsearch:all', 'csearch:debug', 'ground:all'),
     trusted_base=[A['A3'], A['A4'], A['A7'], A['A9']],
     assumptions=[A['A3'], A['A4'], A['A7']],
     explanation='AffineG::new: Ok iff y^2 = x^3 + b and (check_order => [r-1]P + P = O), for both values of check_order'),
  'C06': dict(
-    tasks=(lambda tier: ['kani:limbs_linear', 'mirvc:specs_lib', 'mirvc:specs_loops', 'lsearch:all'] if tier == 'quick' else ['kani:limbs_linear', 'mirvc:specs_lib', 'mirvc:specs_loops', 'lsearch:all', 'kani:canon']),
+    tasks=(lambda tier: ['kani:limbs_linear', 'mirvc:specs_lib', 'mirvc:specs_loops', 'lsearch:all', 'ground:all'] if tier == 'quick' else ['kani:limbs_linear', 'mirvc:specs_lib', 'mirvc:specs_loops', 'lsearch:all', 'kani:canon', 'ground:all']),
     trusted_base=[A['A1'], A['A6'], A['A7']],
     assumptions=[A['A1'], A['A6'], A['A7']],
     explanation='(under construction) limb-level contracts'),
  'C13': dict(
-    tasks=(lambda tier: ['kani:dispatch', 'kani:bytes', 'kani:limbs_linear', 'mirvc:specs_lib', 'lsearch:all'] if tier == 'quick' else ['kani:dispatch', 'kani:bytes', 'kani:limbs_linear', 'mirvc:specs_lib', 'lsearch:all']),
+    tasks=(lambda tier: ['kani:dispatch', 'kani:bytes', 'kani:limbs_linear', 'mirvc:specs_lib', 'lsearch:all', 'ground:all'] if tier == 'quick' else ['kani:dispatch', 'kani:bytes', 'kani:limbs_linear', 'mirvc:specs_lib', 'lsearch:all', 'ground:all']),
     trusted_base=[A['A6'], A['A7'], A['A9']],
     assumptions=[A['A6'], A['A7'], A['A9']],
     explanation='(under construction) conversion contracts'),
  'C05': dict(
-    tasks=T('mirvc:specs_loops', 'mirvc:specs_lib', 'mirvc:specs_groups', 'gsearch:all', 'lsearch:all'),
+    tasks=T('mirvc:specs_loops', 'mirvc:specs_lib', 'mirvc:specs_groups', 'gsearch:all', 'lsearch:all', 'ground:all'),
     trusted_base=[A['A3'], A['A4'], A['A7'], A['A9'], 'hand-over: U256::from(Fr) = canonical value; bits_without_leading_zeros yields the binary digits (limb-level obligations)'],
     assumptions=[A['A3'], A['A4'], A['A6'], A['A7']],
     explanation='double-and-add loop of Mul<Fr> for G<P> verified with the inductive invariant pt(res) = [prefix] pt(self) over the abstract group; wrappers k*P / P*k are delegation obligations; double/+= meet the group law (C04 obligations)'),
@@ -75,12 +75,12 @@ PROPS = {
     assumptions=[A['A7'], A['A9']],
     explanation='(under construction) encoder contracts'),
  'C07': dict(
-    tasks=(lambda tier: ['kani:limbs_linear', 'mirvc:specs_lib', 'lsearch:all'] if tier == 'quick' else ['kani:limbs_linear', 'mirvc:specs_lib', 'lsearch:all', 'kani:canon']),
+    tasks=(lambda tier: ['kani:limbs_linear', 'mirvc:specs_lib', 'lsearch:all', 'ground:all'] if tier == 'quick' else ['kani:limbs_linear', 'mirvc:specs_lib', 'lsearch:all', 'kani:canon', 'ground:all']),
     trusted_base=[A['A6'], A['A7']],
     assumptions=[A['A6'], A['A7']],
     explanation='(under construction) canonicity'),
  'C14': dict(
-    tasks=T('lsearch:all', 'mirvc:specs_lib', 'csearch:debug'),
+    tasks=T('lsearch:all', 'mirvc:specs_lib', 'csearch:debug', 'ground:all'),
     trusted_base=[A['A2'], A['A7']],
     assumptions=[A['A2'], A['A7']],
     explanation='(under construction) square roots'),
@@ -90,6 +90,26 @@ PROPS = {
     trusted_base=[A['A6'], A['A7'], A['A9'], A['A11']],
     assumptions=[A['A6'], A['A7'], A['A11']],
     explanation='every Kani harness proves all default checks (overflow, shift, index, unwrap, debug_assert, unreachable) of the real MIR it reaches, with debug assertions on; the dual-profile search executes every request on the dev and the release build and compares'),
+ 'C03': dict(
+    tasks=T('mirvc:specs_pairing', 'mirvc:specs_lib', 'mirvc:specs_groups', 'mirvc:specs_fexp', 'pairsearch:all', 'ground:all'),
+    trusted_base=[A['A4'], A['A5'], A['A7'], A['A8'], A['A9']],
+    assumptions=[A['A5'], A['A7'], A['A8']],
+    explanation='pairing() is a function of the affine views only (hence of the group elements, C15); fast_pairing / G2Prepared normalise first; every entry point returns one for EVERY identity representative (x, y, 0) (path obligations of G2Prepared::from / miller_loop); both final exponentiations compute the same map (C17 exponent contracts); equality of the two Miller chains after final exponentiation is pairing theory (A5)'),
+ 'C01': dict(
+    tasks=T('mirvc:specs_pairing', 'mirvc:specs_lib', 'mirvc:specs_fexp', 'mirvc:specs_loops', 'pairsearch:all', 'ground:all'),
+    trusted_base=[A['A2'], A['A5'], A['A7']],
+    assumptions=[A['A2'], A['A5'], A['A7']],
+    explanation='decidable clauses proved: e(O,Q) = e(P,O) = 1 at all three entry points for every identity representative; every pairing value is x^((q^12-1)/r) (exponent contracts) so g^r = 1 and g^(r-1)*g = 1 with the pow / mul contracts (A2); bilinearity and non-degeneracy of the specified function are pairing theory (A5)'),
+ 'C16': dict(
+    tasks=T('mirvc:specs_groups', 'mirvc:specs_lib', 'mirvc:specs_loops', 'mirvc:specs_pairing', 'gsearch:all', 'csearch:debug', 'pairsearch:all', 'ground:all'),
+    trusted_base=[A['A3'], A['A4'], A['A5'], A['A7']],
+    assumptions=[A['A3'], A['A4'], A['A5'], A['A7']],
+    explanation='data-abstraction argument: every operation of the alphabet has a contract requires valid_rep(args) only, ensures valid_rep(out) and pt(out) = op(pt(args)) (C04, C05, C15 obligations incl. on-curve closure); every observer is a function of pt(args) only (==, is_zero, to_affine-based encoders, pairing entry points incl. identity representatives)'),
+ 'C02': dict(
+    tasks=T('mirvc:specs_lines', 'mirvc:specs_fexp', 'mirvc:specs_pairing', 'mirvc:specs_lib', 'mirvc:specs_groups', 'ground:all', 'kani:enc', 'pairsearch:all'),
+    trusted_base=[A['A2'], A['A4'], A['A5'], A['A7'], 'not proved: the loop invariant of the two Miller loops (f = product of the line values at the partial multiples); it is replaced by the structural obligations below plus A5'],
+    assumptions=[A['A2'], A['A5'], A['A7']],
+    explanation='structural Miller contract: (i) ground: the signed digits of the loop constant evaluate to 6t+2, all partial multiples make genuine chords/tangents, Frobenius point constants are w^(q^k-1); (ii) every line function (eval_g_tangent, eval_g_line, g_tangent, g_line, get_fq12) equals the tangent/chord through the untwisted points up to a factor in F_q^2 / F_q^4, and point_pi1/pi2/q_power_frobenius are the twist Frobenius; T is updated by the group law (C04, exact-z contracts); (iv) both final exponentiations raise to (q^12-1)/r exactly and (q^4-1) divides it; (v) serialisation order highest coefficient first (Kani). From these and A5 the value is the R-ate pairing of the standard; the real code is additionally compared byte for byte with an independent textbook implementation (search, not proof)'),
 }
 
 HOOK_COMMITS = ['8aeb3f0']
